@@ -7,6 +7,7 @@
   (string escapes, number spellings, identifier tokens) is tied by the correspondence run.
 -/
 import JP.Lemmas.Surface
+import JP.Lemmas.Lex
 namespace JP.Props.C10
 open JP JP.Query JP.Surface JP.Lemmas
 
@@ -50,7 +51,44 @@ theorem compound_roundtrip (pr : Prec) (hpr : precOK pr = true) (c : Compound)
     ∀ x ∈ c.rest, parseQuery pr (ptoksPath x.2) = .ok ⟨normSegs x.2.segs, x.2.fake⟩ :=
   ⟨Lemmas.parse_ptoks pr hpr c.first h0, fun x hx => Lemmas.parse_ptoks pr hpr x.2 (hr x hx)⟩
 
+/-! ## Character level -/
+
+/-- **Translated**: the rule list of `compile_rules`, the class-level patterns and the patterns built in
+    `Lexer.__init__` are, text for text, the regular expressions the scanners of `JP.Lex` stand for. -/
+theorem lex_source_ok :
+    Lex.sourceOK Generated.lexerRules Generated.lexerPatterns Generated.lexerInitPatterns = true := by decide
+
+/-- **String literals round-trip**: `canonical_string(s)` is read by the lexer as one single-quoted token,
+    and the parser's decoding of that token is `s` — for every string (quotes, backslashes, control
+    characters, non-ASCII and non-BMP characters included). -/
+theorem canonical_string_roundtrip (s rest : Str) :
+    Lex.mQuoted '\'' .sq (canonicalString s ++ rest) = some ([⟨.sq, Lex.sqBody s⟩], rest) ∧
+    Lex.decodeSQ (Lex.sqBody s) = .ok s :=
+  ⟨Lemmas.canonical_string_lexes s rest, Lemmas.canonical_string_decodes s⟩
+
+/-- **The lexer reads the printed text back as the printed tokens** (default identifier spellings; any
+    `\w` behaviour on non-ASCII characters): string escapes, number spellings, keywords, operators,
+    slices, regex literals, function calls and identifier tokens included. -/
+theorem printed_text_lexes (uw : Char → Bool) (p : Path) (h : Lex.printableSegs p.segs = true) :
+    Lex.tokenize ⟨Lex.dflt, uw⟩ (Lex.pstrPath Lex.dflt p) = .ok ((ptoksPath p).map Lex.CTok.tok) :=
+  Lemmas.tokenize_pstrPath uw p h
+
+theorem printed_compound_lexes (uw : Char → Bool) (c : Compound) (h0 : Lex.printableSegs c.first.segs = true)
+    (hr : ∀ x ∈ c.rest, Lex.printableSegs x.2.segs = true) :
+    Lex.tokenize ⟨Lex.dflt, uw⟩ (Lex.pstrCompound Lex.dflt c) = .ok (Lex.ptoksCompound c) :=
+  Lemmas.tokenize_pstrCompound uw c h0 hr
+
+/-- **Text round trip**: compiling the *text* of a compiled query (lexer, literal decoding, parser) gives
+    the query back, up to printing an omitted slice step as the step 1. -/
+theorem text_roundtrip (pr : Prec) (hpr : precOK pr = true) (uw : Char → Bool) (p : Path)
+    (hp : parsedSegs p.segs = true) (h : Lex.printableSegs p.segs = true) :
+    Lex.compileText pr ⟨Lex.dflt, uw⟩ (Lex.pstrPath Lex.dflt p) = some ⟨normSegs p.segs, p.fake⟩ :=
+  Lemmas.compileText_pstrPath pr hpr uw p hp h
+
 /-! ### Non-vacuity -/
+example : Lex.printableSegs [.child [.filter (.infix (.func "length".toList [.self [.child [.name ['a']]]]) .gt (.flt 12))],
+    .desc, .child [.slice none (some 2) none, .filter (.infix (.self []) .re (.regex "a.b".toList ['i']))]] = true := by decide
+
 example : parsedSegs [.child [.filter (.infix (.not (.infix (.self [.child [.name ['a']]]) .eq (.int 1))) .or
     (.infix (.infix (.self [.child [.name ['b']]]) .lt (.int 2)) .and (.not (.self [.child [.name ['c']]]))))]] = true := by decide
 
